@@ -489,7 +489,11 @@ func TMod(a, b Term) Term {
 	if ok1 && ok2 && y.Sign() != 0 {
 		return BigInt(new(big.Int).Rem(x, y))
 	}
-	return App(SInt, "tmod", a, b)
+	if ok2 && y.Sign() != 0 {
+		return App(SInt, "tmod", a, b)
+	}
+	// symbolic divisor: uninterpreted, with the true facts of Go's % on non-negative operands (prelude block "umod")
+	return App(SInt, "umod", a, b)
 }
 
 // EMod is Euclidean mod (SMT-LIB mod), used for x & (2^k-1).
